@@ -752,6 +752,175 @@ func constComparison(v ssa.Value, depth int) string {
 	return "which is not a comparison with a constant"
 }
 
+// counterNoWrapRule: a loop counter of a narrow integer type in a decoder (or encoder) of the plain codec is never
+// stepped past the end of its type: at the step `c' = c +/- k` the guards that dominate it keep the ideal value
+// inside the type's range. A list walked by `for i := uint8(1); i <= count; i++` runs for ever (until the input
+// runs out) when the count octet is 255, so a list of 255 elements that the encoder emits does not decode.
+func (c *Ctx) counterNoWrapRule(r *Report, rule string) {
+	r.Rule(rule, "every loop counter of a narrow integer type in the codec functions keeps its ideal value inside the type's range at its step (no wrap-around for any value of the count it is compared with)", 0)
+	dec, enc, _ := c.codecFuncs()
+	if fn := c.Method("eap", "EapAkaPrime", "Unmarshal"); fn != nil {
+		dec = append(dec, fn)
+	}
+	seen := map[*ssa.Function]bool{}
+	n := 0
+	for _, fn := range c.Reachable(append(dec, enc...)...) {
+		if seen[fn] || fn.Blocks == nil || !c.InModule(fn) {
+			continue
+		}
+		seen[fn] = true
+		loops := naturalLoops(fn)
+		if len(loops) == 0 {
+			continue
+		}
+		f := c.NewFA(fn)
+		for _, li := range loops {
+			for _, ins := range li.header.Instrs {
+				ph, ok := ins.(*ssa.Phi)
+				if !ok {
+					break
+				}
+				tlo, thi, isInt := f.typeRange(ph.Type())
+				if !isInt || thi >= 1<<62 {
+					continue // int / uint / 64-bit: lengths cannot reach the end
+				}
+				for i, e := range ph.Edges {
+					if !li.body[li.header.Preds[i]] {
+						continue
+					}
+					step, ok := e.(*ssa.BinOp)
+					if !ok || (step.Op != token.ADD && step.Op != token.SUB) || step.X != ssa.Value(ph) {
+						continue
+					}
+					k := f.LFOf(step.Y)
+					if !k.isConst() {
+						continue
+					}
+					ideal := f.LFOf(ph).add(k, 1)
+					if step.Op == token.SUB {
+						ideal = f.LFOf(ph).add(k, -1)
+					}
+					facts := f.FactsAt(step.Block())
+					okLo, _ := f.Prove(ideal.add(konst(tlo), -1), facts)
+					okHi, _ := f.Prove(konst(thi).add(ideal, -1), facts)
+					if !okLo || !okHi {
+						okLo2, _ := f.ProveCases(ideal.add(konst(tlo), -1), facts, step.Block())
+						okHi2, _ := f.ProveCases(konst(thi).add(ideal, -1), facts, step.Block())
+						okLo, okHi = okLo || okLo2, okHi || okHi2
+					}
+					n++
+					key := fmt.Sprintf("%s: %s", c.FuncName(fn), c.SrcExpr(step))
+					r.Check(okLo && okHi, rule, key, c.InstrPos(step), fmt.Sprintf("the step stays within %s under the loop guard", ph.Type()), fmt.Sprintf("the counter (%s) can be stepped past the end of its type: the guard {%s} admits a value whose successor wraps around, so the loop does not stop after the count it is compared with", ph.Type(), f.ShowFacts(facts)))
+				}
+			}
+		}
+	}
+	_ = n
+}
+
+// guardedNarrowingRule: where an encoder tests that a quantity fits a wire field (a comparison with 2^(8n)-1 or
+// 2^(8n) whose failing side only returns an error), the value it then narrows to that width must be provably
+// within the width under that guard. A guard on len(body) followed by uint16(4 + len(body)) lets bodies of
+// 65532..65535 octets through with a wrapped length field.
+func (c *Ctx) guardedNarrowingRule(r *Report, rule string) {
+	r.Rule(rule, "a value an encoder narrows to 8 / 16 / 32 bits behind a 'does it fit' guard of that width is provably within the width under the guard (the guard tests the quantity that is written, not a part of it)", 0)
+	_, enc, _ := c.codecFuncs()
+	seen := map[*ssa.Function]bool{}
+	for _, fn := range c.Reachable(enc...) {
+		if seen[fn] || fn.Blocks == nil || !c.InModule(fn) {
+			continue
+		}
+		seen[fn] = true
+		f := c.NewFA(fn)
+		// the fits-guards of the function: width -> blocks on the passing side
+		type guard struct {
+			bits int
+			pass *ssa.BasicBlock
+		}
+		var guards []guard
+		for _, b := range fn.Blocks {
+			iff, ok := b.Instrs[len(b.Instrs)-1].(*ssa.If)
+			if !ok || b.Succs[0] == b.Succs[1] {
+				continue
+			}
+			cmp, ok := iff.Cond.(*ssa.BinOp)
+			if !ok {
+				continue
+			}
+			k, ok := cmp.Y.(*ssa.Const)
+			if !ok || k.Value == nil {
+				continue
+			}
+			kv, ok := constInt64(k.Value)
+			if !ok {
+				continue
+			}
+			bits := 0
+			for _, n := range []int{8, 16, 32} {
+				if kv == int64(1)<<uint(n)-1 || kv == int64(1)<<uint(n) {
+					bits = n
+				}
+			}
+			if bits == 0 {
+				continue
+			}
+			for i := 0; i < 2; i++ {
+				if c.onlyErrorExit(b.Succs[i]) && !c.onlyErrorExit(b.Succs[1-i]) {
+					guards = append(guards, guard{bits, b.Succs[1-i]})
+				}
+			}
+		}
+		if len(guards) == 0 {
+			continue
+		}
+		for _, b := range fn.Blocks {
+			for _, ins := range b.Instrs {
+				cv, ok := ins.(*ssa.Convert)
+				if !ok {
+					continue
+				}
+				tlo, thi, isInt := f.typeRange(cv.Type())
+				slo, shi, isInt2 := f.typeRange(cv.X.Type())
+				if !isInt || !isInt2 || (slo >= tlo && shi <= thi) {
+					continue
+				}
+				bits := 0
+				for _, n := range []int{8, 16, 32} {
+					if thi == int64(1)<<uint(n)-1 && tlo == 0 {
+						bits = n
+					}
+				}
+				guarded := false
+				for _, g := range guards {
+					if g.bits == bits && g.pass.Dominates(b) {
+						guarded = true
+					}
+				}
+				if !guarded {
+					continue
+				}
+				// only quantities that are lengths (or sums with lengths): a field value masked to its width is
+				// narrowed on purpose
+				l := f.LFOf(cv.X)
+				isLen := false
+				for a := range l.T {
+					if strings.HasPrefix(f.atoms[a].key, "len:") || f.atoms[a].lenOf != nil {
+						isLen = true
+					}
+				}
+				if !isLen {
+					continue
+				}
+				facts := f.FactsAt(b)
+				okHi, _ := f.Prove(konst(thi).add(l, -1), facts)
+				okLo, _ := f.Prove(l.add(konst(tlo), -1), facts)
+				key := fmt.Sprintf("%s: %s", c.FuncName(fn), c.SrcExpr(cv))
+				r.Check(okHi && okLo, rule, key, c.InstrPos(cv), fmt.Sprintf("within %d bits under the guard", bits), fmt.Sprintf("%s ranges beyond %d bits under the guards {%s}: the 'does it fit' test in front of it bounds another quantity, and the field written carries the residue", f.Show(l), bits, f.ShowFacts(facts)))
+			}
+		}
+	}
+}
+
 func isPointerLike(t types.Type) bool {
 	switch t.Underlying().(type) {
 	case *types.Pointer, *types.Interface:
